@@ -53,6 +53,11 @@ SAMPLING_SIZE = {'do_all': 1, 'do_all_exceptions': 1,
 
 HS_BATCH = 1200
 
+# an unrelated call made in the middle of every set case
+FOREIGN = (['q_9-', 'Z.z', ' _ ', 'é-é'],
+           {'extra_letters': '_-.', 'dialect': 'perl', 'tag': True,
+            'strip': True})
+
 
 def _set_cases(alpha, n, opts):
     for o in opts:
@@ -63,6 +68,8 @@ def _set_cases(alpha, n, opts):
 def set_layer_cases(tier, layer):
     th = tier == 'thorough'
     allo = range(len(AB.OPTIONS))
+    if layer == 'set0':
+        return _set_cases([], 0, allo)
     if layer == 'set1':
         return _set_cases(AB.A_PAIR_T, 1, allo)
     if layer == 'set2':
@@ -79,10 +86,18 @@ def set_layer_cases(tier, layer):
 
 
 def hs_sources(tier):
-    L = ['set1', 'set2', 'set2opt', 'set3']
+    L = ['set0', 'set1', 'set2', 'set2opt', 'set3']
     if tier == 'thorough':
         L += ['set3opt', 'set4']
     return L
+
+
+def eff_tier(tier):
+    """thorough explores the full space under PYTHONHASHSEED=0 and repeats
+    the quick space under hash seeds 1 and 2"""
+    if tier == 'thorough' and os.environ.get('PYTHONHASHSEED') in ('1', '2'):
+        return 'quick'
+    return tier
 
 
 class C14(Check):
@@ -130,7 +145,9 @@ class C14(Check):
 
     # ------------------------------------------------------------- layers
     def layers(self, tier):
-        L = [('set1', 'single example x 8 option points: forms, repeats, '
+        L = [('set0', 'no example at all (empty list/dict/Series, zero '
+                      'counts, removed empties) x 8 option points'),
+             ('set1', 'single example x 8 option points: forms, repeats, '
                       'seeded call'),
              ('set2', 'pairs, default options: + both orders'),
              ('set2opt', 'pairs x 7 non-default option points'),
@@ -140,11 +157,15 @@ class C14(Check):
              ('prngfake', 'E2: every random.sample answer, bracket invariant'),
              ('hashseed', 'same jobs under PYTHONHASHSEED 0,1,2 (children)')]
         if tier == 'thorough':
-            L[4:4] = [('set3opt', 'triples x 7 non-default option points'),
+            L[5:5] = [('set3opt', 'triples x 7 non-default option points'),
                       ('set4', 'quadruples, all 24 orders, 2 option points')]
         return L
 
     def cases(self, tier, layer):
+        full = tier
+        tier = eff_tier(tier)
+        if tier != full and layer in ('set3opt', 'set4', 'hashseed'):
+            return              # (hashseed children cover all three seeds)
         th = tier == 'thorough'
         if layer.startswith('set'):
             for c in set_layer_cases(tier, layer):
@@ -174,15 +195,16 @@ class C14(Check):
                 for xs in AB.subsets(AB.A_SAMPLED, n):
                     for si in range(len(AB.SIZE_POINTS)):
                         for seed in seeds:
-                            yield {'k': 'fake' if fake else 'prng',
-                                   'x': list(xs), 'size': si, 'seed': seed}
+                            c = {'k': 'fake' if fake else 'prng',
+                                 'x': list(xs), 'size': si, 'seed': seed}
+                            if fake and th:
+                                c['orders'] = True
+                            yield c
         elif layer == 'hashseed':
-            if th and os.environ.get('PYTHONHASHSEED') not in (None, '', '0'):
-                return          # children cover all three seeds: run once
             for src in hs_sources(tier):
                 n = sum(1 for _ in set_layer_cases(tier, src))
                 for lo in range(0, n, HS_BATCH):
-                    yield {'k': 'hs', 'src': src, 'lo': lo,
+                    yield {'k': 'hs', 'src': src, 'tier': tier, 'lo': lo,
                            'hi': min(n, lo + HS_BATCH)}
         else:
             raise KeyError(layer)
@@ -191,18 +213,30 @@ class C14(Check):
     def setup_worker(self, tier):
         import random
         import pandas as pd
-        from tdda.rexpy import rexpy
+        import tdda.rexpy.rexpy as orig
         self.tier = tier
         self.random = random
         self.pd = pd
-        self.rexpy = rexpy
-        self.real_random = rexpy.random
+        self.src_path = orig.__file__
+        with open(self.src_path, encoding='utf-8') as f:
+            self.code = compile(f.read(), self.src_path, 'exec')
+        self.rexpy = self.fresh_module()
+        self.real_random = random
+
+    def fresh_module(self):
+        """A new instance of the rexpy module (its source executed into a
+        fresh namespace): every case starts from pristine module state,
+        whatever that state consists of, so a case replays alone exactly as it
+        ran in the worker."""
+        import types
+        m = types.ModuleType('tdda.rexpy.rexpy')
+        m.__file__ = self.src_path
+        m.__package__ = 'tdda.rexpy'
+        exec(self.code, m.__dict__)
+        return m
 
     def teardown_worker(self):
-        try:
-            self.rexpy.random = self.real_random
-        except Exception:
-            pass
+        pass
 
     def reset(self):
         rx = self.rexpy
@@ -231,6 +265,7 @@ class C14(Check):
 
     def run_case(self, case):
         k = case['k']
+        self.rexpy = self.fresh_module()
         if k == 'set':
             return self.run_set(case)
         if k == 'memo':
@@ -282,6 +317,10 @@ class C14(Check):
         d = {extra: 0}
         d.update((s, 1) for s in xs)
         cmp('dict-zero-count', self.ex(d, opts), {'dict': d})
+        if n == 0 and opts.get('remove_empties'):
+            for inp in ([''], ['', ''], {'': 2}):
+                cmp('only-removed-empties', self.ex(inp, opts),
+                    inp if isinstance(inp, list) else {'dict': inp})
         for v in AB.repeat_vectors(n):
             inp = AB.round_robin(xs, v)
             cmp('repeat-list', self.ex(inp, opts), inp)
@@ -293,14 +332,20 @@ class C14(Check):
                 col = inp[:1] + [None] + inp[1:] + inp[:1]
                 s = pd.Series(col, dtype=object)
                 cmp('series', self.call(pdx, s), {'series': col})
-            s = pd.Series(pd.Categorical(list(xs) + list(xs[:1])))
-            cmp('categorical', self.call(pdx, s), {'categorical': xs})
+            if n:
+                s = pd.Series(pd.Categorical(list(xs) + list(xs[:1])))
+                cmp('categorical', self.call(pdx, s), {'categorical': xs})
             h = (n + 1) // 2
             cols = [pd.Series(list(xs[:h]) + [None], dtype=object),
                     pd.Series(list(xs[h:]) + list(xs[:1]), dtype=object)]
             cmp('two-series', self.call(pdx, cols),
                 {'series': [list(xs[:h]) + [None],
                             list(xs[h:]) + list(xs[:1])]})
+        # an unrelated call with other options in between changes nothing
+        self.ex(list(FOREIGN[0]), FOREIGN[1])
+        R.ev()
+        cmp('after-unrelated-call', self.ex(list(xs), opts),
+            {'first': list(FOREIGN), 'then': xs})
         # seeded call on an input that needs no sampling: reproducible from
         # two pre-states, generator untouched
         rnd = self.random
@@ -312,13 +357,14 @@ class C14(Check):
             R.ev()
             if rnd.getstate() != before:
                 R.out('differs:seeded-state')
-                R.viol('seeded-unsampled:state:o%d' % o,
+                R.viol('seeded-unsampled:state:%s'
+                       % ('no-examples' if not base else 'examples'),
                        'global-state-restored',
                        {'examples': xs, 'options': opts, 'seed': 1,
                         'pre': 'random.seed(%d)' % pre}, 'seeded-state')
         if seeded[0] != seeded[1]:
             R.out('differs:seeded')
-            R.viol('seeded-unsampled:result:o%d:%s' % (o, sh),
+            R.viol('seeded-unsampled:result:%s' % sh,
                    'seeded-result-reproducible',
                    {'examples': xs, 'options': opts, 'seed': 1,
                     'after random.seed(100)': seeded[0],
@@ -473,7 +519,7 @@ class C14(Check):
         xs, seed = case['x'], case['seed']
         pt = AB.SIZE_POINTS[case['size']]
         Size = self.rexpy.Size
-        orders = self.tier == 'thorough'
+        orders = bool(case.get('orders'))
 
         def run(chooser):
             self.reset()
@@ -522,7 +568,8 @@ class C14(Check):
     def run_hs(self, case):
         R = Res()
         jobs = [[c['x'], c['o']] for c in itertools.islice(
-            set_layer_cases(self.tier, case['src']), case['lo'], case['hi'])]
+            set_layer_cases(case['tier'], case['src']), case['lo'],
+            case['hi'])]
         payload = json.dumps({'jobs': jobs})
         procs = []
         for hs in (0, 1, 2):
@@ -530,7 +577,7 @@ class C14(Check):
             env['PYTHONHASHSEED'] = str(hs)
             env['PYTHONDONTWRITEBYTECODE'] = '1'
             env['TDDA_SRC'] = os.path.dirname(os.path.dirname(
-                os.path.dirname(os.path.abspath(self.rexpy.__file__))))
+                os.path.dirname(os.path.abspath(self.src_path))))
             procs.append(subprocess.Popen(
                 [sys.executable, '-m', 'mc.rex14_child'], cwd=VERIF, env=env,
                 stdin=subprocess.PIPE, stdout=subprocess.PIPE,
